@@ -314,7 +314,10 @@ def u_error_change(root):
     mk(eng, "CostFunction", "name", "getter", result=lambda vw: newname)
     initcalls = []
     mk(eng, "FitBase", "_init_cost_function", result=lambda vw: (initcalls.append(dict(vw.args)), VNone())[1])
-    for implicit in (True, False):
+    mk(eng, "FitBase", "has_data_errors", "getter", result=lambda vw: VBool(z3.Bool("has_data_errors")))          # (not asked by the code under proof: the switch does not depend on WHERE the first source was declared)
+    mk(eng, "FitBase", "has_model_errors", "getter", result=lambda vw: VBool(z3.Bool("has_model_errors")))
+    mk(eng, "FitBase", "has_errors", "getter", result=lambda vw: VBool(z3.Bool("has_errors")))
+    for implicit, fitcls in ((True, "IndexedFit"), (False, "IndexedFit"), (True, "XYFit")):
         rec = {}
 
         def init(e, st, me_, rec=rec, implicit=implicit):
@@ -323,9 +326,9 @@ def u_error_change(root):
             st.assume(e.read_field(st, me_, "_implicit_no_errors").e == implicit)
             return {}
 
-        def post(vw, rec=rec, implicit=implicit):
+        def post(vw, rec=rec, implicit=implicit, fitcls=fitcls):
             marked = {c[0] for c in vw.post.ghost.get("node_calls", ()) if c[1] == "mark_for_update"}
-            table = {"data_error", "model_error", "data_cov_mat", "model_cov_mat"}
+            table = {"data_error", "model_error", "data_cov_mat", "model_cov_mat"} if fitcls == "IndexedFit" else {a_ + t_ + s_ for a_ in ("x_", "y_") for t_ in ("data", "model") for s_ in ("_error", "_cov_mat")}          # xy: the sources of BOTH axes, data and model side
             out = [("minimizer state reset", z3.BoolVal(any(c[0] == "reset_minimizer" for c in rec.get("calls", [])))),
                    ("EVERY basic error node of the fit type is marked for update", z3.BoolVal(table <= marked))]
             if implicit:
@@ -339,9 +342,9 @@ def u_error_change(root):
             else:
                 out += [("an explicit cost function is left alone", z3.And(vw.f(vw.post, vw.self, "_cost_function").e == vw.f(vw.pre, vw.self, "_cost_function").e, z3.BoolVal(len(made) == 0)))]
             return out
-        c = Contract("IndexedFit", "_on_error_change")
+        c = Contract(fitcls, "_on_error_change")
         c.ensures.append(post)
-        eng.verify("IndexedFit", "_on_error_change", None, init, contract=c, tag=f"(implicit_no_errors={implicit})")
+        eng.verify(fitcls, "_on_error_change", None, init, contract=c, tag=f"({fitcls}, implicit_no_errors={implicit})")
     # data setter: BOTH containers deliver error changes to _on_error_change
     compat = z3.Bool("data_compatible")
     dc, pm = z3.Const("new_data_container", Ref), z3.Const("new_param_model", Ref)
@@ -431,7 +434,8 @@ def units(root):
             Unit("declared constraints reach the constraint objects unchanged (value, uncertainty, relative flag, indices; shared with C03)", _shared_constraints),
             Unit("xy cost functions: which graph nodes they read (both axes by default)", u_xy_cost_names),
             Unit("a declared source contributes (sigma sigma^T) o rho with the SIGNED relative reference: SimpleGaussianError caches (shared with C02)", _shared_source_cov),
-            Unit("SimpleGaussianError._calculate_cov_mat_generic (shared with C02)", _shared_source_generic)]
+            Unit("SimpleGaussianError._calculate_cov_mat_generic (shared with C02)", _shared_source_generic),
+            Unit("HistFit.model = bin integrals x ALL entries of the histogram for a density (shared with C13)", _shared_histfit_model)]
 
 
 def u_xy_cost_names(root):
@@ -464,6 +468,11 @@ def u_xy_cost_names(root):
             c.ensures.append(post)
             eng.verify(cls, "__init__", None, lambda e, st, me_, given=given: ({} if given is None else {"axes_to_use": VStr(given)}), contract=c, tag=f"[axes_to_use={given}]")
     return eng
+
+
+def _shared_histfit_model(root):
+    from . import c13
+    return c13.u_histfit_model(root)
 
 
 def _shared_source_cov(root):
